@@ -1,6 +1,7 @@
 import Amgcl.Proofs.InverseMatrix
 import Amgcl.Proofs.SkylineMatrix
 import Amgcl.Proofs.SkylineCrout
+import Amgcl.Proofs.SkylineEmbed
 import Amgcl.Proofs.DenseCheck
 import Mathlib.Algebra.Order.Field.Rat
 import Mathlib.LinearAlgebra.Matrix.Determinant.Basic
@@ -47,6 +48,16 @@ theorem ex_factorize : factorize (fun v : ℚ => decide (v = 0)) (fun v => 1 / v
 theorem ex_emb : ∀ i j, i < 2 → j < 2 → exDense ((#[0, 1] : Array Nat).getD i 0) ((#[0, 1] : Array Nat).getD j 0) = Emb exRaw i j := by
   intro i j hi hj
   interval_cases i <;> interval_cases j <;> simp [exDense, Emb, Ld, Ud, Dd, Skyline.P]
+
+theorem exA_nodup : ∀ i, ((exA.row i).map (·.1)).Nodup := by
+  intro i
+  rcases Nat.lt_or_ge i 2 with h | h
+  · interval_cases i <;> simp [CRS.row]
+  · have : exA.row i = [] := by
+      unfold CRS.row; simp [Array.getD]; omega
+    rw [this]; simp
+
+theorem exA_wf : exA.WF := by decide
 
 theorem exFac_D : ∀ i, i < exFac.n → Dd exFac i ≠ 0 := by
   intro i hi
